@@ -221,8 +221,17 @@ func run(r *mon.Rec, entry string, code int, b []byte, src string) {
 				i += n
 			}
 			c := nclient4.NewBroadcastUDPConn(&fakeConn{frames: frames}, &net.UDPAddr{Port: 68})
-			buf := make([]byte, 1500)
+			// one connection, read buffers of changing sizes (the size is the caller's choice at every call)
+			sizes := []int{1500, 576, 1500, 4096, 300, 2048, 64, 65535, 1, 0, 1500}
+			so := 0
+			if len(b) > 0 {
+				so = int(b[len(b)-1])
+			}
 			for k := 0; k <= len(frames); k++ {
+				buf := make([]byte, sizes[(so+k)%len(sizes)])
+				if len(b)%3 == 0 {
+					buf = make([]byte, 1500)
+				}
 				if _, _, e := c.ReadFrom(buf); e != nil {
 					break
 				}
@@ -343,7 +352,8 @@ var entries = []string{"dhcpv4.FromBytes", "dhcpv4.Options.FromBytes", "dhcpv6.F
 func vendorString(r *rand.Rand) []byte {
 	s := []string{"Arista;DCS-7050S-64;01.23;JPE12221671", "Arista;;", "Arista;x;y", "Cisco;8800;12.34;FOC00000000", "Cisco;8800", "ZPESystems:NSC:001234567", "ZPESystems:NSC",
 		"NVOS##MMM1234##MM1234X56ABC", "NVOS##x", "1271-23422Z11-123", "1271-x", "1271", "Juniper-ptx1000-DD123", "Juniper-qfx10008", "Juniper:ex3400-24p:AB12", "PXEClient:Arch:00000:UNDI:002001",
-		"Eth1/2:2.100", "Ethernet1/2/3:2", "xe-1/2/3.0:untagged", "ge-0/0/0.0:RE0", "et-0/0/0:0.0", "Ethernet1:45", "Ethernet1/1:2020", "Port-Channel1", "", ";", ":", "-"}[r.IntN(28)]
+		"Eth1/2:2.100", "Ethernet1/2/3:2", "xe-1/2/3.0:untagged", "ge-0/0/0.0:RE0", "et-0/0/0:0.0", "Ethernet1:45", "Ethernet1/1:2020", "Port-Channel1", "", ";", ":", "-",
+		"FPR4100", "FPR9300", "1271-x-y", "Juniper-", "Juniper:", "ZPESystems:", "NVOS####", "Cisco;", "Arista"}[r.IntN(37)]
 	return []byte(s)
 }
 
@@ -354,6 +364,31 @@ func special4(r *rand.Rand) []byte {
 	switch r.IntN(5) {
 	case 0:
 		p.Options[60] = vendorString(r)
+		// the options the extractors look at next to the class identifier (client identifier, host name), present
+		// with nothing in them, with one octet, with a type octet in front, with NULs
+		comp := func() []byte {
+			switch r.IntN(7) {
+			case 0:
+				return nil
+			case 1:
+				return []byte{}
+			case 2:
+				return []byte{byte(r.UintN(2))}
+			case 3:
+				return append([]byte{0}, "FOC1234X5YZ"...)
+			case 4:
+				return []byte("JPE12221671\x00")
+			case 5:
+				return []byte{0, 0}
+			}
+			return gen4.Bytes(r, 1+r.IntN(12))
+		}
+		if r.IntN(3) != 0 {
+			p.Options[61] = comp()
+		}
+		if r.IntN(3) != 0 {
+			p.Options[12] = comp()
+		}
 	case 1:
 		v := vendorString(r)
 		if r.IntN(2) == 0 { // Cisco VIVC format and malformed variants of it
